@@ -20,13 +20,13 @@ RULE = (
     "generated: 1..8 concurrent callers (arrival time 0..20 s, kind in {get(CURCH, retry 1..10), press, "
     "set value, get watercare, set watercare, reminders}) next to the library's ping and refresh loops; "
     "spa->client fault tape (drop/delay per datagram) and client->spa drops; jitter tape (J<=50 ms); gate "
-    "state in {open, stale ping, not connected}. Non-trivial = >=2 callers whose lock requests overlap and "
+    "state in {open, stale ping, not connected}; optionally a stream of 10..60 unclaimed datagrams 50..200 ms apart. Non-trivial = >=2 callers whose lock requests overlap and "
     ">=1 lost or late reply, or a gated case; distinct by canonical case."
 )
 ASSUMPTIONS = [
     "schedules = jitter-tape family (timer latencies <= 50 ms), not arbitrary pre-emption",
     "completion bound per call = retry x (timeout + pause) + retry x 2 x (poll + J) measured from lock acquisition",
-    "a reply counts as delivered for a call when a datagram of its response verb reaches the client inside one of the call's attempt windows (sequence numbers are not echoed by the spa)",
+    "a reply counts as delivered for a call when a datagram of its response verb reaches the client inside one of the call's attempt windows, opened 6 x (poll + J) early for datagrams still waiting in the receive queue (sequence numbers are not echoed by the spa, so replies cannot be matched exactly)",
 ]
 BUDGET = {
     "quick": {"workers": 16, "examples": 960},
@@ -45,11 +45,13 @@ def strategy(tier):
                        st.integers(1, 10)).map(list)
     act = st.one_of(st.sampled_from(["d", "d", "d", "x", "x"]), st.sampled_from([0.5, 2.0, 3.5, 4.5, 6.5]).map(lambda d: ["l", d]))
     jitter = st.one_of(st.just([]), st.lists(st.sampled_from([0.0, 0.0, 0.01, 0.03, 0.05]), min_size=1, max_size=7))
+    # a stream of datagrams nobody claims (start s, count, gap ms): keeps the receive queue non-empty while callers wait
+    noise = st.one_of(st.none(), st.none(), st.tuples(st.sampled_from([0.0, 0.5, 2.0]), st.integers(10, 60), st.sampled_from([50, 100, 200])).map(list))
     return st.builds(
-        lambda cs, s2c, c2s, j, gate: {"callers": cs, "s2c": s2c, "c2s": c2s, "jitter": j, "gate": gate},
+        lambda cs, s2c, c2s, j, gate, nz: dict({"callers": cs, "s2c": s2c, "c2s": c2s, "jitter": j, "gate": gate}, **({"noise": nz} if nz else {})),
         st.lists(caller, min_size=1, max_size=8), st.lists(act, max_size=24),
         st.lists(st.sampled_from(["d", "d", "d", "x"]), max_size=10), jitter,
-        st.sampled_from(["open", "open", "open", "stale-ping", "not-connected"]))
+        st.sampled_from(["open", "open", "open", "stale-ping", "not-connected"]), noise)
 
 
 def _verb(datagram):
@@ -116,6 +118,11 @@ def run_case(case) -> Result:
                     raise InvalidCase(kind)
                 rec["t_return"] = W.clock.t
 
+            noise = case.get("noise")
+            if noise:
+                n_start, n_count, n_gap = float(noise[0]), min(int(noise[1]), 60), max(int(noise[2]), 50) / 1000.0
+                for i in range(n_count):
+                    W.inject(W.transports[-1], R.frame(sim.vp_identifier, clients.CLIENT_ID, b"NOISE" + bytes([i])), peer.addr, delay=n_start + i * n_gap)
             tasks = []
             for ix, (delay, kind, retry) in enumerate(case["callers"]):
                 t = asyncio.ensure_future(one(ix, float(delay), kind, int(retry)))
@@ -214,11 +221,16 @@ def run_case(case) -> Result:
                 rv = RESPONSE[verb]
                 got_in = lambda a, b_: any(a <= t_ <= b_ and _verb(d_) == rv for t_, _, d_ in deliv)
                 sure = any(got_in(s[0], s[0] + timeout - 3 * (vworld.POLL + J)) for s in sends)
-                maybe = any(got_in(s[0] - 1e-9, s[0] + timeout + 3 * (vworld.POLL + J)) for s in sends)
+                # a datagram delivered shortly before the attempt may still be in the receive queue when it starts: an unclaimed
+                # head is discarded within 6 x (poll + J) (the bound C07 checks), so the window opens that much earlier
+                maybe = any(got_in(s[0] - 6 * (vworld.POLL + J), s[0] + timeout + 3 * (vworld.POLL + J)) for s in sends)
                 if "result" in rec:
-                    if rec["result"] and not maybe:
+                    # (a stream of unclaimed datagrams lets a reply wait in the receive queue beyond any attempt window, so the
+                    # attribution of replies to attempts by time is only judged without one)
+                    if rec["result"] and not maybe and not noise:
                         res.fail(f"C06|reply-from-nowhere|{rec['kind']}", f"{name} returned a reply but no {rv!r} datagram was delivered during its attempts")
-                    if not rec["result"] and sure and not jitter:
+                    # (with a noise stream the reply can sit behind unclaimed datagrams for the whole attempt: not judged)
+                    if not rec["result"] and sure and not jitter and not noise:
                         res.fail(f"C06|reply-ignored|{rec['kind']}", f"{name} reported failure although {rv!r} was delivered during an attempt")
                     if not rec["result"]:
                         stats["lost"] = True
@@ -234,4 +246,6 @@ def run_case(case) -> Result:
         res.label("overlapping-callers")
     if stats["lost"]:
         res.label("lost-or-late-reply")
+    if case.get("noise"):
+        res.label("noise-stream")
     return res
